@@ -215,7 +215,23 @@ func (e *Engine) mapUpdate(fr *Frame, st *State, x *ssa.MapUpdate) {
 	if m.Obj == nil {
 		return
 	}
-	e.mapSet(st, m, e.val(fr, st, x.Key), e.val(fr, st, x.Value))
+	kv, vv := e.val(fr, st, x.Key), e.val(fr, st, x.Value)
+	// labels (C18): a labelled value stored under a literal key makes that key secret-bearing;
+	// under a computed key the whole map is labelled
+	if bits := e.taintBits(st, vv, 0) &^ 128; bits != 0 {
+		if ks, ok := kv.(StrV); ok && ks.Lit != nil {
+			st.taintKeysAdd(m.Obj, *ks.Lit)
+		} else if ks, ok := kv.(StrV); ok {
+			if lit, ok2 := concreteString(ks); ok2 {
+				st.taintKeysAdd(m.Obj, lit)
+			} else {
+				st.taintSet(m.Obj, bits)
+			}
+		} else {
+			st.taintSet(m.Obj, bits)
+		}
+	}
+	e.mapSet(st, m, kv, vv)
 }
 
 func (e *Engine) mapLookup(fr *Frame, st *State, x *ssa.Lookup, m MapV) Value {
